@@ -250,11 +250,40 @@ def run_lean_driver(driver, lines, lean_dir=LEAN, shards=8):
 _PM = None
 
 
+class _CaseTimeout(BaseException):
+    pass
+
+
+def _on_vtalrm(signum, frame):
+    raise _CaseTimeout()
+
+
 def _worker(chunk):
+    """Run cases on the real code.  Each case gets a CPU-time budget (ITIMER_VIRTUAL, so it
+    does not interfere with wall-clock alarms a property module may use itself): an input
+    or a changed tree that makes the implementation loop forever becomes an oracle hit
+    `hang:…` instead of stalling the check."""
+    import signal
+    budget = float(os.environ.get("VERIF_CASE_CPU_TIMEOUT", "60"))
+    try:
+        signal.signal(signal.SIGVTALRM, _on_vtalrm)
+        armed = True
+    except Exception:
+        armed = False
     out = []
     for case in chunk:
         try:
-            o, hits, tags = _PM.run_impl(case)
+            if armed:
+                signal.setitimer(signal.ITIMER_VIRTUAL, budget)
+            try:
+                o, hits, tags = _PM.run_impl(case)
+            finally:
+                if armed:
+                    signal.setitimer(signal.ITIMER_VIRTUAL, 0)
+        except _CaseTimeout:
+            sig = "hang:" + (case.lstrip("#").split("|")[0].split(" ")[0][:40] or "case")
+            o, hits, tags = "hang", [{"signature": sig, "what": "the implementation did not finish this case within %.0f s of CPU "
+                                      "time (non-terminating loop?)" % budget, "no_shrink": True}], ["hang"]
         except Exception as e:  # harness bug or unexpected implementation behaviour
             o, hits, tags = "harness-exception %s: %s" % (type(e).__name__, str(e)[:200]), [], ["harness-exception"]
         out.append((o, hits, list(tags)))
